@@ -655,11 +655,14 @@ fn prim_cases(tier: Tier, part: &str) -> Vec<Case> {
         Sty { fill: false, stroke: true, w: 10, al: 1, same: false },
         Sty { fill: false, stroke: true, w: 128, al: 2, same: false },
     ];
+    // polylines additionally with a stroke colour of width 0 (the colour is set, nothing may be drawn)
+    let mut reduced_polyline = reduced.clone();
+    reduced_polyline.push(Sty { fill: false, stroke: true, w: 0, al: 0, same: false });
     let mut v = vec![];
     for s in &shapes {
         let closed_or_line = !matches!(s, Shape::Polyline { .. } | Shape::Line { .. });
         let big_family = matches!(s, Shape::Polyline { .. } | Shape::Tri { .. });
-        let list = if big_family && !tier.is_thorough() { &reduced } else { &st };
+        let list = if big_family && !tier.is_thorough() { if matches!(s, Shape::Polyline { .. }) { &reduced_polyline } else { &reduced } } else { &st };
         for y in list {
             if !closed_or_line && y.fill && !y.stroke {
                 continue;
